@@ -25,11 +25,12 @@ def import_class(path):
 class Recorder:
     """Stand-in for an EFFECT(...) object: records calls, returns declared defaults."""
 
-    def __init__(self, name, spec, log, guards_cb):
+    def __init__(self, name, spec, log, guards_cb, ns=None):
         self._name = name
         self._spec = spec
         self._log = log
         self._guards_cb = guards_cb
+        self._ns = ns or {}
 
     def __getattr__(self, attr):
         if attr.startswith("__"):
@@ -39,7 +40,13 @@ class Recorder:
             ev = Event(f"{self._name}.{attr}", a, k)
             self._log.append(ev)
             self._guards_cb(ev)
-            return None
+            per = (self._spec or {}).get(attr) or {}
+            ret = per.get("returns")
+            if ret is None:
+                return None
+            if isinstance(ret, str):
+                return {"int": 0, "bool": False, "bytes": b"", "str": "", "real": 0.0, "any": None}.get(ret)
+            return decode(None, ret, self._ns, self._log, self._guards_cb)
         return call
 
     def __bool__(self):
@@ -107,7 +114,7 @@ def decode(val, decl, ns, log, guards_cb, name="v"):
         items = val.get("__dict__", []) if isinstance(val, dict) else []
         return {_hashable(decode(k, decl[1], ns, log, guards_cb)): decode(v, decl[2], ns, log, guards_cb) for k, v in items}
     if kind == "effect":
-        return Recorder(decl[1], decl[2], log, guards_cb)
+        return Recorder(decl[1], decl[2], log, guards_cb, ns)
     if kind == "callable":
         nm = decl[1]
 
